@@ -1984,6 +1984,17 @@ def c11(tier):
             ks = sorted(rnd.sample(ks, 400))
         for k in ks:
             faults.append({"sc": "%s#%d" % (name, k), "ops": pre + [dict(start, fault_at=k)] + body, "_name": name, "_k": k})
+        # the SOURCE archive of each raw copy fails at its j-th operation (opening it, locating the entry, or - the part that
+        # matters - while its data is being transferred): the copy must report it or be complete
+        for oi, o in enumerate(body):
+            if o.get("op") != "RawCopy":
+                continue
+            nsrc = [e for e in seg if e.get("ev") == "RawCopy"][len([x for x in body[:oi] if x.get("op") == "RawCopy"])].get("src_ops", 0)
+            for j in range(nsrc):
+                b2 = [dict(x) for x in body]
+                b2[oi] = dict(o, src_under={"fault_at": j})
+                faults.append({"sc": "%s#src%d-%d" % (name, oi, j), "ops": pre + [start] + b2, "_name": name, "_k": 100000 + oi * 1000 + j})
+            opcount["%s:source-of-copy-%d" % (name, oi)] = nsrc
     rep.notes["writer_ops_per_scenario"] = opcount
     pfile, tfile = os.path.join(wd, "wfault-programs.ndjson"), os.path.join(wd, "wfault-trace.ndjson")
     vlib.write_ndjson(pfile, [{k: v for k, v in s.items() if not k.startswith("_")} for s in faults])
